@@ -67,7 +67,7 @@ func (g *hostGroup) pop() {
 }
 
 func (g *hostGroup) popN(n int) {
-	g.hosts = g.hosts[:len(g.hosts)-n]
+	g.hosts = g.hosts[:len(g.hosts)-n*g.hostSize]
 }
 
 func (w *Writer) write(what interface{}) error {
